@@ -298,6 +298,9 @@ pub fn frame_at(tr: &str, dir: Dir, buf: &[u8]) -> At {
         if buf.len() >= 4 && (buf[2] != 0 || buf[3] != 0) {
             return At::Rejected;
         }
+        // KNOWN RESIDUE (DESIGN.md section 5, C14 readings): while the PDU length is not yet determined the
+        // length field is not judged, although some values (0, 1) can belong to no frame; in this corner the
+        // reference follows the crate, which compares the field only against a predicted length
         match predict(7, dir, buf) {
             Err(()) => At::Rejected,
             Ok(None) => At::Incomplete,
